@@ -511,7 +511,7 @@ class Executor:
         self._hook_list.append((re.compile(pattern), fn))
 
     def run(self, fname, args):
-        fn = self.m.function(fname)
+        fn = self.m.function(self.m.resolve(fname))
         return self.call_function(fn, args)
 
     def val(self, frame, ty, v):
